@@ -565,3 +565,561 @@ Lemma SP_Idb0 : Idb db0.
 Proof. exact CP_Icat0. Qed.
 
 End History.
+
+(* ===== load: exact run, else highest run of the same identity (C06) =========== *)
+
+Lemma SP_plookup_in : forall k p b, plookup k p = Some b -> In (k, b) p.
+Proof.
+  intros k p b. induction p as [|[k' b'] p IH]; cbn; [discriminate|].
+  destruct (pkey_eqb k k') eqn:E.
+  - apply CP_pkey_eqb_eq in E. subst. intros [= ->]. now left.
+  - intros H. right. auto.
+Qed.
+
+Lemma SP_plookup_none : forall k p, plookup k p = None -> forall b, ~ In (k, b) p.
+Proof.
+  intros k p. induction p as [|[k' b'] p IH]; cbn; intros H b; [tauto|].
+  destruct (pkey_eqb k k') eqn:E; [discriminate|].
+  intros [[= -> ->]|Hin].
+  - rewrite (proj2 (CP_pkey_eqb_eq k k) eq_refl) in E. discriminate.
+  - eapply IH; eauto.
+Qed.
+
+Lemma SP_in_plookup : forall k p b, NoDup (map fst p) -> In (k, b) p -> plookup k p = Some b.
+Proof.
+  intros k p b. induction p as [|[k' b'] p IH]; cbn; intros Hnd Hin; [tauto|].
+  inversion Hnd as [|? ? Hk Hnd']; subst.
+  destruct Hin as [[= -> ->]|Hin].
+  - now rewrite (proj2 (CP_pkey_eqb_eq k k) eq_refl).
+  - destruct (pkey_eqb k k') eqn:E; [|auto].
+    apply CP_pkey_eqb_eq in E. subst. exfalso. apply Hk. apply in_map_iff. exists (k', b). auto.
+Qed.
+
+Lemma SP_tail_eqb : forall a b, tail_eqb a b = true <-> pk_tail a = pk_tail b.
+Proof.
+  intros [[[[[r t] k] a] s] v] [[[[[r' t'] k'] a'] s'] v']. cbn.
+  rewrite !andb_true_iff, !Nat.eqb_eq. split.
+  - intros [[[[-> ->] ->] ->] ->]. reflexivity.
+  - intros [= -> -> -> -> ->]. auto 10.
+Qed.
+
+(* the last element of the stable sort is a maximum *)
+Section LastMax.
+  Context {A : Type} (f : A -> Z).
+  Let leb := fun a b : A => Z.leb (f a) (f b).
+
+  Definition lastmax (s : list A) : Prop :=
+    forall e rest, rev s = e :: rest -> In e s /\ forall y, In y s -> (f y <= f e)%Z.
+
+  Lemma SP_sinsert_in : forall x s z, In z (sinsert leb x s) <-> z = x \/ In z s.
+  Proof.
+    intros x s z. induction s as [|y s IH]; cbn.
+    - intuition.
+    - destruct (leb x y); cbn; [intuition|]. rewrite IH. intuition.
+  Qed.
+
+  Lemma SP_lastmax_tail : forall y s, s <> [] -> lastmax (y :: s) -> lastmax s.
+  Proof.
+    intros y s Hne H e rest E.
+    destruct (H e (rest ++ [y])) as [H1 H2].
+    { cbn. rewrite E. reflexivity. }
+    split.
+    - destruct H1 as [->|H1]; [|exact H1].
+      (* e = y is the last element of s as well *)
+      assert (In e (rev s)) by (rewrite E; now left). now apply in_rev.
+    - intros z Hz. apply H2. now right.
+  Qed.
+
+  Lemma SP_sinsert_lastmax : forall x s, lastmax s -> lastmax (sinsert leb x s).
+  Proof.
+    intros x s. induction s as [|y s IH]; intros H e rest E.
+    - cbn in E. injection E as <- _. split; [now left|]. intros z [<-|[]]. lia.
+    - cbn [sinsert] in *. destruct (leb x y) eqn:L.
+      + (* x :: y :: s : last element unchanged *)
+        assert (E' : exists rest', rev (y :: s) = e :: rest').
+        { change (rev (x :: y :: s)) with (rev (y :: s) ++ [x]) in E.
+          destruct (rev (y :: s)) as [|e' r'] eqn:R.
+          - cbn in R. destruct (rev s); discriminate.
+          - cbn in E. injection E as <- _. eauto. }
+        destruct E' as [rest' E'].
+        destruct (H _ _ E') as [H1 H2]. split; [now right|].
+        intros z [<-|Hz]; [|auto].
+        unfold leb in L. apply Z.leb_le in L. specialize (H2 y (or_introl eq_refl)). lia.
+      + unfold leb in L. apply Z.leb_gt in L.
+        destruct s as [|y' s'].
+        * cbn in E. injection E as <- _. split; [right; now left|].
+          intros z [<-|[<-|[]]]; lia.
+        * assert (Hs : lastmax (y' :: s')) by (eapply SP_lastmax_tail; eauto; discriminate).
+          specialize (IH Hs).
+          assert (E' : exists rest', rev (sinsert leb x (y' :: s')) = e :: rest').
+          { change (rev (y :: sinsert leb x (y' :: s')))
+              with (rev (sinsert leb x (y' :: s')) ++ [y]) in E.
+            destruct (rev (sinsert leb x (y' :: s'))) as [|e' r'] eqn:R.
+            - exfalso. apply (f_equal (@length A)) in R. rewrite rev_length in R.
+              assert (In x (sinsert leb x (y' :: s'))) by (apply SP_sinsert_in; now left).
+              destruct (sinsert leb x (y' :: s')); [destruct H0|discriminate].
+            - cbn in E. injection E as <- _. eauto. }
+          destruct E' as [rest' E'].
+          destruct (IH _ _ E') as [H1 H2]. split; [now right|].
+          intros z [<-|Hz]; [|auto].
+          assert (f x <= f e)%Z by (apply H2; apply SP_sinsert_in; now left). lia.
+  Qed.
+
+  Lemma SP_ssort_lastmax : forall l, lastmax (ssort leb l).
+  Proof.
+    induction l as [|x l IH]; cbn.
+    - intros e rest E. discriminate.
+    - now apply SP_sinsert_lastmax.
+  Qed.
+
+  Lemma SP_ssort_in : forall l z, In z (ssort leb l) <-> In z l.
+  Proof.
+    induction l as [|x l IH]; intros z; cbn; [tauto|].
+    rewrite SP_sinsert_in, IH. intuition.
+  Qed.
+End LastMax.
+
+Lemma SP_load_pick_spec : forall p pk,
+  match load_pick p pk with
+  | Some b =>
+      In (pk, b) p \/
+      (plookup pk p = None /\
+       exists key, In (key, b) p /\ pk_tail key = pk_tail pk /\
+                   forall key' b', In (key', b') p -> pk_tail key' = pk_tail pk ->
+                                   (pk_run key' <= pk_run key)%Z)
+  | None => forall key b, In (key, b) p -> pk_tail key <> pk_tail pk
+  end.
+Proof.
+  intros p pk. unfold load_pick. destruct (plookup pk p) as [b|] eqn:E.
+  - left. now apply SP_plookup_in.
+  - set (spks := filter (fun e => tail_eqb (fst e) pk) p).
+    pose proof (SP_ssort_lastmax (fun e : pkey * Z => pk_run (fst e)) spks) as LM.
+    pose proof (SP_ssort_in (fun e : pkey * Z => pk_run (fst e)) spks) as SI.
+    cbv beta in LM, SI.
+    destruct (rev (ssort (fun a b => (pk_run (fst a) <=? pk_run (fst b))%Z) spks))
+      as [|[key b] rest] eqn:R.
+    + intros key b Hin Ht.
+      assert (Hs : In (key, b) spks).
+      { apply filter_In. split; [exact Hin|]. cbn. now apply SP_tail_eqb. }
+      apply SI in Hs. apply in_rev in Hs. rewrite R in Hs. destruct Hs.
+    + right. split; [reflexivity|]. destruct (LM _ _ R) as [H1 H2].
+      apply SI in H1. apply filter_In in H1. destruct H1 as [H1 Ht]. cbn in Ht.
+      apply SP_tail_eqb in Ht. exists key. split; [exact H1|]. split; [exact Ht|].
+      intros key' b' Hin' Ht'.
+      assert (Hs : In (key', b') spks).
+      { apply filter_In. split; [exact Hin'|]. cbn. now apply SP_tail_eqb. }
+      apply SI in Hs. specialize (H2 _ Hs). cbn in H2. exact H2.
+Qed.
+
+(* ===== the reference dictionary of C06 ========================================== *)
+
+Definition ver_eqb (a b : ver) : bool :=
+  let '(x, y, z) := a in let '(x', y', z') := b in
+  Z.eqb x x' && Z.eqb y y' && Z.eqb z z'.
+
+Lemma SP_ver_eqb_eq : forall a b, ver_eqb a b = true <-> a = b.
+Proof.
+  intros [[x y] z] [[x' y'] z']. cbn. rewrite !andb_true_iff, !Z.eqb_eq. split.
+  - intros [[-> ->] ->]. reflexivity.
+  - intros [= -> -> ->]. auto.
+Qed.
+
+Definition ident_eqb (a b : ident) : bool :=
+  name_eqb (d_task a) (d_task b) && name_eqb (d_alg a) (d_alg b)
+  && ver_eqb (d_aver a) (d_aver b) && name_eqb (d_sv a) (d_sv b)
+  && ver_eqb (d_sver a) (d_sver b) && name_eqb (d_vn a) (d_vn b)
+  && ver_eqb (d_vver a) (d_vver b).
+
+Lemma SP_ident_eqb_eq : forall a b, ident_eqb a b = true <-> a = b.
+Proof.
+  intros [a1 a2 a3 a4 a5 a6 a7] [b1 b2 b3 b4 b5 b6 b7]. unfold ident_eqb. cbn.
+  rewrite !andb_true_iff, !CP_name_eqb_eq, !SP_ver_eqb_eq. split.
+  - intros [[[[[[-> ->] ->] ->] ->] ->] ->]. reflexivity.
+  - intros [= -> -> -> -> -> -> ->]. auto 10.
+Qed.
+
+Definition rkey := (name * ident * Z)%type.     (* target, identity, run *)
+
+Definition rkey_eqb (a b : rkey) : bool :=
+  let '(t, i, r) := a in let '(t', i', r') := b in
+  name_eqb t t' && ident_eqb i i' && Z.eqb r r'.
+
+Lemma SP_rkey_eqb_eq : forall a b, rkey_eqb a b = true <-> a = b.
+Proof.
+  intros [[t i] r] [[t' i'] r']. cbn.
+  rewrite !andb_true_iff, CP_name_eqb_eq, SP_ident_eqb_eq, Z.eqb_eq. split.
+  - intros [[-> ->] ->]. reflexivity.
+  - intros [= -> -> ->]. auto.
+Qed.
+
+Definition refd := list (rkey * Z).
+
+Fixpoint rget (k : rkey) (m : refd) : option Z :=
+  match m with
+  | [] => None
+  | (k', c) :: m' => if rkey_eqb k k' then Some c else rget k m'
+  end.
+
+Definition rset (k : rkey) (c : Z) (m : refd) : refd := (k, c) :: m.
+
+(* remove(run, target, task, alg, sv, value): every version of those names *)
+Definition rmatch (r : Z) (tn task alg sv vn : name) (k : rkey) : bool :=
+  let '(t, i, r') := k in
+  Z.eqb r r' && name_eqb t tn && name_eqb (d_task i) task && name_eqb (d_alg i) alg
+  && name_eqb (d_sv i) sv && name_eqb (d_vn i) vn.
+
+Definition rdel (r : Z) (tn task alg sv vn : name) (m : refd) : refd :=
+  filter (fun e => negb (rmatch r tn task alg sv vn (fst e))) m.
+
+Definition completed (steps : option nat) : bool :=
+  match steps with None => true | Some n => Nat.leb 6 n end.
+
+Definition ref_step (m : refd) (o : op) : refd :=
+  match o with
+  | OUpd r tn id c steps => if completed steps then rset (tn, id, r) c m else m
+  | ORemove r tn task alg sv vn => rdel r tn task alg sv vn m
+  | _ => m
+  end.
+
+Definition refdict (ops : list op) : refd := fold_left ref_step ops [].
+
+Lemma SP_rget_rset : forall k k' c m,
+  rget k (rset k' c m) = if rkey_eqb k k' then Some c else rget k m.
+Proof. reflexivity. Qed.
+
+Lemma SP_rget_rdel : forall r tn task alg sv vn k m,
+  rget k (rdel r tn task alg sv vn m)
+  = if rmatch r tn task alg sv vn k then None else rget k m.
+Proof.
+  intros r tn task alg sv vn k m. unfold rdel. induction m as [|[k' c] m IH]; cbn.
+  - now destruct (rmatch r tn task alg sv vn k).
+  - destruct (rmatch r tn task alg sv vn k') eqn:M'; cbn.
+    + rewrite IH. destruct (rkey_eqb k k') eqn:E; [|reflexivity].
+      apply SP_rkey_eqb_eq in E. subst. now rewrite M'.
+    + destruct (rkey_eqb k k') eqn:E.
+      * apply SP_rkey_eqb_eq in E. subst. now rewrite M'.
+      * exact IH.
+Qed.
+
+Lemma SP_rmatch_spec : forall r tn task alg sv vn t i r',
+  rmatch r tn task alg sv vn (t, i, r') = true
+  <-> r' = r /\ t = tn /\ d_task i = task /\ d_alg i = alg /\ d_sv i = sv /\ d_vn i = vn.
+Proof.
+  intros. cbn. rewrite !andb_true_iff, Z.eqb_eq, !CP_name_eqb_eq. intuition.
+Qed.
+
+Section Refine.
+Variable digest : Z -> Z.
+Hypothesis digest_inj : forall a b, digest a = digest b -> a = b.
+
+Definition Rf (d : db) (m : refd) : Prop :=
+  (forall tn id r c, rget (tn, id, r) m = Some c ->
+     exists key, resolves (dcat d) key tn id /\ pk_run key = r /\
+                 In (key, digest c) (prime (dcat d))) /\
+  (forall key b, In (key, b) (prime (dcat d)) ->
+     exists tn id c, resolves (dcat d) key tn id /\
+                     rget (tn, id, pk_run key) m = Some c /\ b = digest c).
+
+Lemma SP_Rf_ext : forall d d' m,
+  ext (dcat d) (dcat d') -> prime (dcat d') = prime (dcat d) -> Rf d m -> Rf d' m.
+Proof.
+  intros d d' m X P [R1 R2]. split.
+  - intros tn id r c H. destruct (R1 _ _ _ _ H) as (key & H1 & H2 & H3).
+    exists key. rewrite P. split; [eapply SP_resolves_ext; eauto|auto].
+  - intros key b H. rewrite P in H. destruct (R2 _ _ H) as (tn & id & c & H1 & H2 & H3).
+    exists tn, id, c. split; [eapply SP_resolves_ext; eauto|auto].
+Qed.
+
+Lemma SP_key_eq : forall (k k' : pkey), pk_run k = pk_run k' -> pk_tail k = pk_tail k' -> k = k'.
+Proof.
+  intros [[[[[r t] k] a] s] v] [[[[[r' t'] k'] a'] s'] v']. cbn. intros -> [= -> -> -> -> ->].
+  reflexivity.
+Qed.
+
+Lemma SP_has_names_resolves : forall c key tn task alg sv vn tn' id,
+  has_names c key tn task alg sv vn -> resolves c key tn' id ->
+  tn' = tn /\ d_task id = task /\ d_alg id = alg /\ d_sv id = sv /\ d_vn id = vn.
+Proof.
+  intros c [[[[[r t] k] a] s] v] tn task alg sv vn tn' id
+         (H1 & H2 & (av & H3) & (sv' & H4) & (vv & H5)) (G1 & G2 & G3 & G4 & G5).
+  rewrite H1 in G1. rewrite H2 in G2. rewrite H3 in G3. rewrite H4 in G4. rewrite H5 in G5.
+  injection G1 as <-. injection G2 as <-. injection G3 as G3. injection G4 as G4.
+  injection G5 as G5. apply CP_construct_inj in G3, G4, G5.
+  destruct G3 as [<- _], G4 as [<- _], G5 as [<- _]. auto.
+Qed.
+
+Lemma SP_exec_Rf : forall d o m, Idb d -> plain_op o -> Rf d m ->
+  Rf (fst (exec digest d o)) (ref_step m o).
+Proof.
+  intros d o m HI Hp HR. pose proof HI as (Hw & Hnd & Hch).
+  destruct (SP_exec_Idb digest d o HI Hp) as [HI' X].
+  destruct o; cbn [ref_step]; try (eapply SP_Rf_ext; [exact X| |exact HR]).
+  - cbn. now rewrite SP_prime_cat_append.
+  - cbn. now rewrite SP_prime_register.
+  - (* update *)
+    destruct Hp as [Htn Hid]. cbn [exec] in *. unfold update1 in *.
+    destruct (to_key (dcat d) r tn id) as [c1 k] eqn:E. cbn [fst] in *.
+    destruct (SP_to_key _ _ _ _ _ _ Hw Htn Hid E) as (W & P & X1 & Hr & Hres).
+    set (d1 := mkdb c1 (store d) (stage d)) in *.
+    destruct (SP_steps_cat digest steps k c d1) as [HT HP].
+    set (d2 := run_steps steps (upd_steps digest k c) d1) in *.
+    assert (X12 : ext c1 (dcat d2)).
+    { intros y. destruct (HT y) as [_ ->]. cbn. exists []. now rewrite app_nil_r. }
+    assert (Hres2 : resolves (dcat d2) k tn id) by (eapply SP_resolves_ext; eauto).
+    assert (Xd2 : ext (dcat d) (dcat d2)) by (eapply CP_ext_trans; [exact X1|exact X12]).
+    assert (Hcomp : completed steps = true ->
+                    prime (dcat d2) = pset k (digest c) (prime (dcat d))).
+    { intros Hc. unfold d2, run_steps, upd_steps. destruct steps as [n|].
+      - unfold completed in Hc. apply Nat.leb_le in Hc.
+        rewrite firstn_all2 by (cbn; lia). cbn. unfold st_record, st_move, st_sum. cbn.
+        destruct (smem (digest c) (store d)); cbn; now rewrite P.
+      - cbn. unfold st_record, st_move, st_sum. cbn.
+        destruct (smem (digest c) (store d)); cbn; now rewrite P. }
+    assert (Hncomp : completed steps = false -> prime (dcat d2) = prime (dcat d)).
+    { intros Hc. unfold d2, run_steps, upd_steps. destruct steps as [n|]; [|discriminate].
+      unfold completed in Hc. apply Nat.leb_gt in Hc.
+      destruct n as [|[|[|[|[|[|n]]]]]]; try lia; cbn; unfold st_move, st_sum; cbn;
+        try (destruct (smem (digest c) (store d)); cbn); now rewrite ?P. }
+    destruct (completed steps) eqn:Hc.
+    + specialize (Hcomp eq_refl). clear Hncomp.
+      destruct (SP_pset_spec k (digest c) (prime (dcat d)) Hnd) as [_ N2].
+      destruct HR as [R1 R2]. split.
+      * intros tn' id' r' c' Hg. rewrite SP_rget_rset in Hg.
+        destruct (rkey_eqb (tn', id', r') (tn, id, r)) eqn:Ek.
+        -- apply SP_rkey_eqb_eq in Ek. injection Ek as -> -> ->. injection Hg as <-.
+           exists k. split; [exact Hres2|]. split; [exact Hr|].
+           rewrite Hcomp. apply N2. now left.
+        -- destruct (R1 _ _ _ _ Hg) as (key & H1 & H2 & H3).
+           assert (H1' : resolves (dcat d2) key tn' id') by (eapply SP_resolves_ext; [exact Xd2|exact H1]).
+           exists key. split; [exact H1'|]. split; [exact H2|].
+           rewrite Hcomp. apply N2. right. split; [exact H3|]. cbn. intros ->.
+           destruct (SP_resolves_inj _ _ _ _ _ _ _ H1' Hres2 eq_refl) as [-> ->].
+           rewrite Hr in H2. subst r'.
+           rewrite (proj2 (SP_rkey_eqb_eq (tn, id, r) (tn, id, r)) eq_refl) in Ek. discriminate.
+      * intros key b Hin. rewrite Hcomp in Hin. apply N2 in Hin.
+        destruct Hin as [[= -> ->]|[Hin Hne]].
+        -- exists tn, id, c. split; [exact Hres2|]. split; [|reflexivity].
+           rewrite SP_rget_rset, Hr.
+           now rewrite (proj2 (SP_rkey_eqb_eq (tn, id, r) (tn, id, r)) eq_refl).
+        -- cbn in Hne. destruct (R2 _ _ Hin) as (tn0 & id0 & c0 & H1 & H2 & H3).
+           assert (H1' : resolves (dcat d2) key tn0 id0) by (eapply SP_resolves_ext; [exact Xd2|exact H1]).
+           exists tn0, id0, c0. split; [exact H1'|]. split; [|exact H3].
+           rewrite SP_rget_rset.
+           destruct (rkey_eqb (tn0, id0, pk_run key) (tn, id, r)) eqn:Ek; [|exact H2].
+           apply SP_rkey_eqb_eq in Ek. injection Ek as -> -> Ek.
+           exfalso. apply Hne. apply SP_key_eq; [congruence|].
+           exact (SP_resolves_fun (dcat d2) key k tn id (proj1 HI') H1' Hres2).
+    + specialize (Hncomp eq_refl). eapply SP_Rf_ext; [exact Xd2|exact Hncomp|exact HR].
+  - (* load *)
+    cbn [exec fst]. unfold load1. destruct (to_key (dcat d) r tn id) as [c1 k] eqn:E.
+    cbn. pose proof (SP_prime_to_key (dcat d) r tn id) as Hp'. rewrite E in Hp'. exact Hp'.
+  - (* remove *)
+    destruct Hp as (Ha & Hs & Hv). cbn [exec] in *.
+    destruct (remove (dcat d) r tn task alg sv vn) as [c'|] eqn:E; cbn [fst] in *.
+    + destruct (CP_remove_exact _ _ _ _ _ _ _ _ HI Ha Hs Hv E) as (HT & _ & Hin).
+      destruct HR as [R1 R2]. split.
+      * intros tn' id' r' c0 Hg. rewrite SP_rget_rdel in Hg.
+        destruct (rmatch r tn task alg sv vn (tn', id', r')) eqn:M; [discriminate|].
+        destruct (R1 _ _ _ _ Hg) as (key & H1 & H2 & H3).
+        exists key. split; [eapply SP_resolves_ext; eauto|]. split; [exact H2|].
+        cbn. apply Hin. split; [exact H3|]. intros [Hr Hn].
+        destruct (SP_has_names_resolves _ _ _ _ _ _ _ _ _ Hn H1) as (-> & <- & <- & <- & <-).
+        assert (rmatch r tn (d_task id') (d_alg id') (d_sv id') (d_vn id') (tn, id', r') = true).
+        { apply SP_rmatch_spec. repeat split; congruence. }
+        congruence.
+      * intros key b Hk. cbn in Hk. apply Hin in Hk. destruct Hk as [Hk Hnot].
+        destruct (R2 _ _ Hk) as (tn0 & id0 & c0 & H1 & H2 & H3).
+        exists tn0, id0, c0. split; [eapply SP_resolves_ext; eauto|]. split; [|exact H3].
+        rewrite SP_rget_rdel.
+        destruct (rmatch r tn task alg sv vn (tn0, id0, pk_run key)) eqn:M; [|exact H2].
+        exfalso. apply Hnot. apply SP_rmatch_spec in M.
+        destruct M as (M0 & -> & <- & <- & <- & <-). split; [exact M0|].
+        now apply SP_resolves_names.
+    + (* KeyError: nothing stored under that target / task *)
+      destruct HR as [R1 R2]. split.
+      * intros tn' id' r' c0 Hg. rewrite SP_rget_rdel in Hg.
+        destruct (rmatch r tn task alg sv vn (tn', id', r')); [discriminate|]. eauto.
+      * intros key b Hk. destruct (R2 _ _ Hk) as (tn0 & id0 & c0 & H1 & H2 & H3).
+        exists tn0, id0, c0. split; [exact H1|]. split; [|exact H3].
+        rewrite SP_rget_rdel.
+        destruct (rmatch r tn task alg sv vn (tn0, id0, pk_run key)) eqn:M; [|exact H2].
+        exfalso. apply SP_rmatch_spec in M. destruct M as (_ & -> & <- & _).
+        destruct key as [[[[[r0 t0] k0] a0] s0] v0]. destruct H1 as (G1 & G2 & _).
+        destruct (Hw Ttarget) as [Hit _], (Hw Ttask) as [Hik _].
+        apply (CP_lookup_index _ _ _ _ Hit) in G1. apply (CP_lookup_index _ _ _ _ Hik) in G2.
+        unfold remove in E. cbn [tb] in G1, G2. rewrite G1, G2 in E. discriminate.
+  - cbn. reflexivity.
+  - reflexivity.
+  - reflexivity.
+  - reflexivity.
+  - reflexivity.
+Qed.
+
+Theorem SP_run_Rf : forall ops d m, Idb d -> Forall plain_op ops -> Rf d m ->
+  Rf (run digest d ops) (fold_left ref_step ops m).
+Proof.
+  induction ops as [|o ops IH]; intros d m HI Hp HR; cbn; [exact HR|].
+  inversion Hp as [|? ? Ho Hops]; subst.
+  apply IH; [apply (SP_exec_Idb digest d o HI Ho)|exact Hops|].
+  apply SP_exec_Rf; assumption.
+Qed.
+
+Lemma SP_Rf0 : Rf db0 [].
+Proof. split; [intros tn id r c H; discriminate|intros key b []]. Qed.
+
+End Refine.
+
+Section LoadRef.
+Variable digest : Z -> Z.
+Hypothesis digest_inj : forall a b, digest a = digest b -> a = b.
+
+Lemma SP_blob_content : forall d key c,
+  Istore digest d -> In (key, digest c) (prime (dcat d)) ->
+  slookup (digest c) (store d) = Some c.
+Proof.
+  intros d key c (Hn & _ & Hd) Hin. specialize (Hd _ _ Hin).
+  apply SP_smem_in in Hd. unfold smem in Hd.
+  destruct (slookup (digest c) (store d)) as [c'|] eqn:E; [|discriminate].
+  apply SP_slookup_in in E. apply Hn in E. apply digest_inj in E. now subst.
+Qed.
+
+Theorem SP_load_ref : forall ops r tn id,
+  Forall plain_op ops -> plain tn -> plain_id id ->
+  let d := run digest db0 ops in
+  let m := refdict ops in
+  let rep := snd (load1 d r tn id) in
+  (forall c, rget (tn, id, r) m = Some c -> rep = RLoaded (Some c)) /\
+  (rget (tn, id, r) m = None ->
+   forall r' c, rget (tn, id, r') m = Some c ->
+     (forall r'' c'', rget (tn, id, r'') m = Some c'' -> (r'' <= r')%Z) ->
+     rep = RLoaded (Some c)) /\
+  ((forall r', rget (tn, id, r') m = None) -> rep = RLoaded None).
+Proof.
+  intros ops r tn id Hp Htn Hid d m rep.
+  destruct (SP_run_Idb digest ops db0 SP_Idb0 Hp) as [HI _]. fold d in HI.
+  pose proof (SP_run digest ops db0 (SP_init digest)) as HS. fold d in HS.
+  pose proof (SP_run_Rf digest ops db0 [] SP_Idb0 Hp (SP_Rf0 digest)) as HR.
+  fold d in HR. change (fold_left ref_step ops []) with m in HR.
+  pose proof HI as (Hw & Hnd & _).
+  unfold rep, load1. destruct (to_key (dcat d) r tn id) as [c1 pk] eqn:E. cbn [snd].
+  destruct (SP_to_key _ _ _ _ _ _ Hw Htn Hid E) as (W & P & X & Hr & Hres).
+  set (d1 := mkdb c1 (store d) (stage d)).
+  assert (HR1 : Rf digest d1 m) by (eapply SP_Rf_ext; [exact X|exact P|exact HR]).
+  destruct HR1 as [R1 R2]. cbn [d1 dcat] in R1, R2.
+  assert (HS1 : Istore digest d1).
+  { eapply SP_same_store; [| |exact HS]; cbn; [reflexivity|]. intros e. now rewrite P. }
+  assert (Hnd1 : NoDup (map fst (prime c1))) by now rewrite P.
+  assert (BC : forall key c, In (key, digest c) (prime c1) ->
+                             slookup (digest c) (store d) = Some c).
+  { intros key c Hin. exact (SP_blob_content d1 key c HS1 Hin). }
+  assert (SAME : forall key tn' id', resolves c1 key tn' id' -> pk_tail key = pk_tail pk ->
+                                     tn' = tn /\ id' = id).
+  { intros key tn' id' H1 Ht. eapply SP_resolves_inj; eauto. }
+  pose proof (SP_load_pick_spec (prime c1) pk) as SPEC.
+  split; [|split].
+  - intros c Hg. destruct (R1 _ _ _ _ Hg) as (key & H1 & H2 & H3).
+    assert (key = pk) as ->.
+    { apply SP_key_eq; [congruence|]. eapply SP_resolves_fun; eauto. }
+    unfold load_pick. rewrite (SP_in_plookup _ _ _ Hnd1 H3). now rewrite (BC _ _ H3).
+  - intros Hnone r' c Hg Hmax.
+    assert (Hpl : plookup pk (prime c1) = None).
+    { destruct (plookup pk (prime c1)) as [b|] eqn:El; [|reflexivity].
+      apply SP_plookup_in in El. destruct (R2 _ _ El) as (tn0 & id0 & c0 & G1 & G2 & _).
+      destruct (SAME _ _ _ G1 eq_refl) as [-> ->]. rewrite Hr in G2. congruence. }
+    destruct (R1 _ _ _ _ Hg) as (key' & H1 & H2 & H3).
+    assert (Ht' : pk_tail key' = pk_tail pk) by (eapply SP_resolves_fun; eauto).
+    destruct (load_pick (prime c1) pk) as [b|] eqn:EL.
+    + destruct SPEC as [Hin|(_ & key & Hin & Ht & Hmx)].
+      { exfalso. eapply SP_plookup_none; eauto. }
+      destruct (R2 _ _ Hin) as (tn0 & id0 & c0 & G1 & G2 & ->).
+      destruct (SAME _ _ _ G1 Ht) as [-> ->].
+      assert (pk_run key = r') as Hrr.
+      { pose proof (Hmx _ _ H3 Ht'). pose proof (Hmax _ _ G2). lia. }
+      rewrite Hrr in G2. assert (c0 = c) as -> by congruence.
+      now rewrite (BC _ _ Hin).
+    + exfalso. exact (SPEC _ _ H3 Ht').
+  - intros Hall. destruct (load_pick (prime c1) pk) as [b|] eqn:EL; [|reflexivity].
+    exfalso. destruct SPEC as [Hin|(_ & key & Hin & Ht & _)].
+    + destruct (R2 _ _ Hin) as (tn0 & id0 & c0 & G1 & G2 & _).
+      destruct (SAME _ _ _ G1 eq_refl) as [-> ->]. rewrite Hall in G2. discriminate.
+    + destruct (R2 _ _ Hin) as (tn0 & id0 & c0 & G1 & G2 & _).
+      destruct (SAME _ _ _ G1 Ht) as [-> ->]. rewrite Hall in G2. discriminate.
+Qed.
+
+(* what the reference dictionary holds was put there by an update of exactly
+   that identity, target and run *)
+Lemma SP_ref_origin : forall ops m0 tn id r c,
+  rget (tn, id, r) (fold_left ref_step ops m0) = Some c ->
+  rget (tn, id, r) m0 = Some c \/
+  exists steps, In (OUpd r tn id c steps) ops /\ completed steps = true.
+Proof.
+  induction ops as [|o ops IH]; intros m0 tn id r c H; cbn in H; [now left|].
+  apply IH in H. destruct H as [H|(steps & Hin & Hc)].
+  - destruct o; cbn [ref_step] in H; try (now left).
+    + destruct (completed steps) eqn:Hc; [|now left].
+      rewrite SP_rget_rset in H.
+      destruct (rkey_eqb (tn, id, r) (tn0, id0, r0)) eqn:Ek; [|now left].
+      apply SP_rkey_eqb_eq in Ek. injection Ek as <- <- <-. injection H as <-.
+      right. exists steps. split; [now left|exact Hc].
+    + rewrite SP_rget_rdel in H.
+      destruct (rmatch r0 tn0 task alg sv vn (tn, id, r)); [discriminate|now left].
+  - right. exists steps. split; [now right|exact Hc].
+Qed.
+
+Lemma SP_isolation : forall ops r tn id rep,
+  Forall plain_op ops -> plain tn -> plain_id id ->
+  snd (load1 (run digest db0 ops) r tn id) = rep ->
+  rep = RLoaded None \/
+  exists c r' steps, rep = RLoaded (Some c) /\
+                     In (OUpd r' tn id c steps) ops /\ completed steps = true.
+Proof.
+  intros ops r tn id rep Hp Htn Hid Hrep.
+  destruct (SP_load_ref ops r tn id Hp Htn Hid) as (H1 & H2 & H3).
+  cbv zeta in H1, H2, H3. rewrite Hrep in H1, H2, H3.
+  assert (ORIG : forall r' c, rget (tn, id, r') (refdict ops) = Some c ->
+                 exists steps, In (OUpd r' tn id c steps) ops /\ completed steps = true).
+  { intros r' c Hg. apply SP_ref_origin in Hg. destruct Hg as [Hg|Hg]; [discriminate|exact Hg]. }
+  destruct (rget (tn, id, r) (refdict ops)) as [c|] eqn:E.
+  - right. destruct (ORIG _ _ E) as (steps & Hin & Hc). exists c, r, steps. auto.
+  - (* highest run among the entries of (tn, id), if any *)
+    assert (MAX : forall l : refd,
+      (forall r', ~ exists c, In ((tn, id, r'), c) l /\ rget (tn, id, r') (refdict ops) = Some c)
+      \/ exists r' c, rget (tn, id, r') (refdict ops) = Some c /\
+                      forall r'' c'', In ((tn, id, r''), c'') l ->
+                                      rget (tn, id, r'') (refdict ops) = Some c'' -> (r'' <= r')%Z).
+    { induction l as [|[[[t i] r0] c0] l IH].
+      - left. intros r' (c & [] & _).
+      - destruct (rkey_eqb (t, i, r0) (tn, id, r0)) eqn:Ek.
+        + apply SP_rkey_eqb_eq in Ek. injection Ek as -> ->.
+          destruct (rget (tn, id, r0) (refdict ops)) as [c1|] eqn:G.
+          * right. destruct IH as [IH|(r' & c' & G' & Hm)].
+            -- exists r0, c1. split; [exact G|]. intros r'' c'' [[= <- <-]|Hin] Hg; [lia|].
+               exfalso. apply (IH r''). eauto.
+            -- destruct (Z.le_gt_cases r0 r').
+               ++ exists r', c'. split; [exact G'|]. intros r'' c'' [[= <- <-]|Hin] Hg; [lia|eauto].
+               ++ exists r0, c1. split; [exact G|]. intros r'' c'' [[= <- <-]|Hin] Hg; [lia|].
+                  specialize (Hm _ _ Hin Hg). lia.
+          * destruct IH as [IH|(r' & c' & G' & Hm)].
+            -- left. intros r' (c & [[= <- <-]|Hin] & Hg); [congruence|]. apply (IH r'). eauto.
+            -- right. exists r', c'. split; [exact G'|].
+               intros r'' c'' [[= <- <-]|Hin] Hg; [congruence|eauto].
+        + assert (Hne : (t, i) <> (tn, id)).
+          { intros [= -> ->]. rewrite (proj2 (SP_rkey_eqb_eq _ _) eq_refl) in Ek. discriminate. }
+          destruct IH as [IH|(r' & c' & G' & Hm)].
+          * left. intros r' (c & [[= -> -> _ _]|Hin] & Hg); [congruence|]. apply (IH r'). eauto.
+          * right. exists r', c'. split; [exact G'|].
+            intros r'' c'' [[= -> -> _ _]|Hin] Hg; [congruence|eauto]. }
+    assert (INL : forall k c, rget k (refdict ops) = Some c -> In (k, c) (refdict ops)).
+    { intros k c. generalize (refdict ops). induction r0 as [|[k' c'] l IH]; cbn; [discriminate|].
+      destruct (rkey_eqb k k') eqn:Ek.
+      - apply SP_rkey_eqb_eq in Ek. subst. intros [= ->]. now left.
+      - intros H. right. auto. }
+    destruct (MAX (refdict ops)) as [Hnone|(r' & c & G & Hm)].
+    + left. apply H3. intros r'. destruct (rget (tn, id, r') (refdict ops)) as [c|] eqn:G; [|reflexivity].
+      exfalso. apply (Hnone r'). exists c. split; [now apply INL|exact G].
+    + right. destruct (ORIG _ _ G) as (steps & Hin & Hc). exists c, r', steps.
+      split; [|auto]. apply (H2 eq_refl r' c G). intros r'' c'' Hg. apply (Hm _ _ (INL _ _ Hg) Hg).
+Qed.
+
+
+End LoadRef.
